@@ -38,6 +38,11 @@ pub enum DOp {
     NewNode,
     CloneHandle(u16),
     Connect(u16, u16),
+    TryConnect(u16, u16),
+    /// is_connected / find_outbound / find_inbound (find_adjacent); results dropped at once
+    Lookup(u16, u16),
+    /// keep the handle returned by a successful find
+    LookupKeep(u16, u16),
     Disconnect(u16, u16),
     Isolate(u16),
     GraphNew,
@@ -240,6 +245,42 @@ fn step<F: Flavour>(w: &mut World<F>, op: &DOp, st: &mut Stats, counting: bool) 
                     F::connect(w.node_of(sa).unwrap().0, w.node_of(sb).unwrap().0, 7);
                     w.edges.push((ia, ib));
                     cls(st, if ia == ib { "op.connect-self-loop" } else { "op.connect" });
+                }
+            }
+        }
+        DOp::TryConnect(a, b) => {
+            if let (Some(sa), Some(sb)) = (w.pick(a, is_node::<F>), w.pick(b, is_node::<F>)) {
+                let (ia, ib) = (w.node_of(sa).unwrap().1, w.node_of(sb).unwrap().1);
+                if w.safe(ia) && w.safe(ib) {
+                    let r = F::try_connect(w.node_of(sa).unwrap().0, w.node_of(sb).unwrap().0, 9);
+                    let had = w.edges.iter().any(|e| (e.0 == ia && e.1 == ib) || (!F::DIRECTED && e.0 == ib && e.1 == ia));
+                    if r.is_ok() == had {
+                        return fail("model.try_connect-disagrees", format!("try_connect({},{}) ok={} while the model has the edge={}", ia, ib, r.is_ok(), had));
+                    }
+                    if r.is_ok() {
+                        w.edges.push((ia, ib));
+                    }
+                    cls(st, if had { "op.try_connect-existing" } else { "op.try_connect-new" });
+                }
+            }
+        }
+        DOp::Lookup(a, b) | DOp::LookupKeep(a, b) => {
+            if let (Some(sa), Some(sb)) = (w.pick(a, is_node::<F>), w.pick(b, is_node::<F>)) {
+                let (ia, ib) = (w.node_of(sa).unwrap().1, w.node_of(sb).unwrap().1);
+                if w.safe(ia) && w.safe(ib) {
+                    let na = w.node_of(sa).unwrap().0;
+                    let c = F::is_connected(na, ib as Key);
+                    let fo = F::find_out(na, ib as Key);
+                    let fi = F::find_in(na, ib as Key);
+                    let had = w.edges.iter().any(|e| (e.0 == ia && e.1 == ib) || (!F::DIRECTED && e.0 == ib && e.1 == ia));
+                    if c != had || fo.is_some() != had {
+                        return fail("model.lookup-disagrees", format!("is_connected({},{})={} find={} model={}", ia, ib, c, fo.is_some(), had));
+                    }
+                    cls(st, if had { "op.lookup-hit" } else { "op.lookup-miss" });
+                    drop(fi);
+                    if let (DOp::LookupKeep(..), Some(h)) = (op, fo) {
+                        w.push(Held::Node(h, ib), BTreeSet::from([ib]));
+                    }
                 }
             }
         }
@@ -543,6 +584,9 @@ fn op_strategy() -> impl Strategy<Value = DOp> {
         8 => (r(), r()).prop_map(|(a, b)| DOp::Connect(a, b)),
         1 => r().prop_map(|a| DOp::Connect(a, a)),
         1 => (r(), r()).prop_map(|(a, b)| DOp::Disconnect(a, b)),
+        3 => (r(), r()).prop_map(|(a, b)| DOp::TryConnect(a, b)),
+        4 => (r(), r()).prop_map(|(a, b)| DOp::Lookup(a, b)),
+        1 => (r(), r()).prop_map(|(a, b)| DOp::LookupKeep(a, b)),
         1 => r().prop_map(DOp::Isolate),
         1 => Just(DOp::GraphNew),
         3 => (r(), r()).prop_map(|(a, b)| DOp::GraphInsert(a, b)),
@@ -571,7 +615,7 @@ fn enumerate(st: &mut Stats, wd: &Watchdog, w: usize, workers: usize, max_nodes:
         shapes.push((0..n).flat_map(|k| [(k, (k + 1) % n), (k, (k + 1) % n)]).collect());
         for shape in &shapes {
             for kind in kinds {
-                for with_graph in [false, true] {
+                for (with_graph, lookups) in [(false, false), (true, false), (false, true), (true, true)] {
                     // held objects after setup: n node slots (+ graph) + result
                     let objs = n + with_graph as usize + 1;
                     // every permutation of the final drop order, encoded through final_drops raw indices
@@ -588,6 +632,13 @@ fn enumerate(st: &mut Stats, wd: &Watchdog, w: usize, workers: usize, max_nodes:
                         // slots 0..n are nodes; node-slot picks map over n live node slots
                         for &(a, b) in shape {
                             ops.push(DOp::Connect(raw(a, n), raw(b, n)));
+                        }
+                        if lookups {
+                            for &(a, b) in shape {
+                                ops.push(DOp::Lookup(raw(a, n), raw(b, n)));
+                                ops.push(DOp::TryConnect(raw(a, n), raw(b, n)));
+                                ops.push(DOp::Lookup(raw(b, n), raw(a, n)));
+                            }
                         }
                         if with_graph {
                             ops.push(DOp::GraphNew);
